@@ -111,8 +111,19 @@ def rename(spec, rng, eps_choices=('ε', '_', '', 'e'), special_p=0.08, keep_sym
     else:
         eps = rng.choice(eps_choices) if 'eps' in spec else None
         pool = [c for c in names.LOWER + '0123456789' if c != eps]
+        if rng.random() < 0.12:
+            pool += [c for c in ('_', 'ε') if c != eps] * 6      # legal input symbols that some text conventions read as "empty"
         syms = rng.sample(pool, len(set(sig) | set(gam)))
+        while len(set(syms)) < len(syms):
+            syms = rng.sample(pool, len(syms))
         sm = dict(zip(sorted(set(sig) | set(gam)), syms))
+        if spec['kind'] == 'pda' and gam and rng.random() < 0.15:
+            # multi-character stack symbols, one a concatenation of others (legal through the constructor)
+            base = rng.choice('ABXZ')
+            forms = [base, base * 2, base * 3] if rng.random() < 0.5 else [base, 'Q', base + 'Q']
+            for g, f in zip(sorted(set(gam)), forms):
+                if f != eps:
+                    sm[g] = f
     if 'eps' in spec:
         sm[spec['eps']] = eps
     out = dict(spec)
